@@ -169,6 +169,26 @@ def run_tree(item, rec):
                                 rec.refute(ctx, bad, "check_zero exit only when the result is zero", viol, timeout_ms=5000)
                                 return
                             judge(ctx, rec, m, e, ref, "mantissa * 10^exponent == plain contraction", viol)
+                            if not cfg and n >= 2 and isinstance(e, FLog):
+                                # second normalisation lemma (again a real-arithmetic NECESSARY condition for the float-range
+                                # sentence): every pairwise step is rescaled, so the mantissa that comes back has max |entry| == 1
+                                mm = symarr.as_obj_array(m)
+                                nots = []
+                                normalised = False
+                                for idx in np.ndindex(*mm.shape):
+                                    q = Q.of(mm[idx])
+                                    if len(q.m) == 1:
+                                        (a, pw), = q.m.items()
+                                        # entry == n / |n| for the very polynomial n the atom stands for: |entry| == 1 (bookkeeping, no query)
+                                        if pw == -1 and a in Q.atom_def and z3.is_true(z3.simplify(Q.atom_def[a] == q.n)) or (pw == -1 and a in Q.atom_def and Q.atom_def[a].eq(q.n)):
+                                            normalised = True
+                                            break
+                                    num, den = laurent.mono_term(q.m)
+                                    nots.append(q.n * q.n * num * num != den * den)
+                                if normalised:
+                                    rec.refute(ctx, False, "returned mantissa is normalised (max |entry| == 1)", viol, reach_probe=False)
+                                else:
+                                    rec.refute(ctx, z3.And(nots) if nots else False, "returned mantissa is normalised (max |entry| == 1)", viol, reach_probe=False, timeout_ms=1500)
                             if cfg:
                                 # normalisation lemma behind the float-range clause (a real-arithmetic NECESSARY
                                 # condition, not the clause itself): the exponent handed back by gather_slices is
@@ -276,6 +296,16 @@ def replay(v):
     for ix in case["sliced"]:
         tree.remove_ind_(ix)
     want = symarr.np_reference(inputs, output, size, arrays)
+    if v["label"].startswith("returned mantissa is normalised"):
+        try:
+            m2, e2 = tree.contract(arrays, strip_exponent=True, check_zero=case["check_zero"])
+        except Exception as e:  # noqa
+            return True, f"real code raised {e!r}"
+        mx = float(np.max(np.abs(m2)))
+        if mx != 0 and abs(mx - 1.0) > 1e-9:
+            return True, (f"{','.join(inputs)}->{output}: strip_exponent returns a mantissa with max |entry| = {mx:.6g} (exponent {float(e2):.4f}): some pairwise step is not rescaled, "
+                          "so the protection against overflow / underflow is lost along such steps")
+        return False, "mantissa normalised"
     if v["label"].startswith("gathered exponent"):
         try:
             sl = [tree.contract_slice(arrays, i, strip_exponent=True) for i in range(tree.nslices)]
